@@ -21,7 +21,7 @@ func specOpenOK(path string) bool {
 }
 
 //@ func Exec
-//@ props C19 C16 C17 C09 C10
+//@ props C19 C16 C17 C09 C10 C14
 //@ option no-global-writes
 //@ calls[trunc@C10+C19] os.OpenFile : arg1&(os.O_CREATE|os.O_TRUNC) == os.O_CREATE|os.O_TRUNC
 //@ calls[init16@C17] ocode_client.NewCodegenClient : arg0 != nil && arg0.BitMode == cpu.MODE_16BIT
